@@ -29,6 +29,17 @@ def gen(rng, tier, no, wide=False):
             for e in ev:
                 if e.get("cat") in legacy:
                     e["cat"] = legacy[e["cat"]]
+    if rng.random() < 0.12:
+        # clock skew between host and device: a launch call that is stamped later than the start of the kernel it
+        # launched (it keeps its end, so the thread stays properly nested)
+        for ev in case["ranks"].values():
+            ks = {(e.get("args") or {}).get("correlation"): e for e in ev if e.get("cat") in ("kernel", "gpu_memcpy", "gpu_memset")}
+            ls = [e for e in ev if e.get("cat") in ("cuda_runtime", "cuda_driver") and (e.get("args") or {}).get("correlation") in ks
+                  and ks[e["args"]["correlation"]]["ts"] < e["ts"] + e["dur"]]
+            for e in rng.sample(ls, min(len(ls), rng.randint(1, 3))):
+                k, end = ks[e["args"]["correlation"]], e["ts"] + e["dur"]
+                e["ts"] = rng.randint(max(k["ts"] + 1, e["ts"]), end)
+                e["dur"] = end - e["ts"]
     streams = sorted({(e.get("args") or {}).get("stream") for ev in case["ranks"].values() for e in ev
                       if "stream" in (e.get("args") or {})})
     sel = None if rng.random() < 0.4 else sorted(rng.sample(streams, rng.randint(1, len(streams))))
